@@ -14,6 +14,7 @@ impl fmt::Display for Code {
         write!(f, "{}", self.0)
     }
 }
+impl std::error::Error for Code {}
 impl FromStr for Code {
     type Err = std::num::ParseIntError;
     fn from_str(s: &str) -> Result<Self, Self::Err> {
@@ -144,6 +145,160 @@ fn with_cust<C: Cust>(c: &Sexp) -> Sexp {
     }
 }
 
+// ---------------------------------------------------------------- ops 23..26 (coverage audit)
+/// every error type of the harness, built from a case and shown as a sexp
+pub trait CaseErr: FromServerFnError + Clone {
+    fn of_case(a: &Sexp, b: &Sexp) -> Self;
+    fn shown(&self) -> Sexp;
+}
+impl<C: Cust> CaseErr for ServerFnError<C> {
+    fn of_case(a: &Sexp, b: &Sexp) -> Self {
+        err_from_case(a.num(), b)
+    }
+    fn shown(&self) -> Sexp {
+        err_to_sexp(self)
+    }
+}
+macro_rules! case_err_lib {
+    ($($t:ty),*) => {$(
+        impl CaseErr for $t {
+            fn of_case(a: &Sexp, _: &Sexp) -> Self {
+                let p = crate::fns::eplan_of(a);
+                match p.variant {
+                    1 => Self::NotFound { id: p.id, what: p.what },
+                    2 => Self::Code(p.code),
+                    3 => Self::Many(p.many),
+                    _ => Self::Lib(crate::fns::lib_err(p.kind, p.what)),
+                }
+            }
+            fn shown(&self) -> Sexp {
+                self.sexp()
+            }
+        }
+    )*};
+}
+case_err_lib!(crate::fns::AppErrJson, crate::fns::AppErrCbor, crate::fns::AppErrMsgPack, crate::fns::AppErrPostcard);
+macro_rules! case_err_k {
+    ($($t:ty),*) => {$(
+        impl CaseErr for $t {
+            fn of_case(a: &Sexp, _: &Sexp) -> Self {
+                let p = crate::fns::eplan_of(a);
+                match p.variant {
+                    1 => Self::NotFound { id: p.id, what: p.what },
+                    2 => Self::Code(p.code),
+                    3 => Self::Many(p.many),
+                    _ => Self::Lib { kind: p.kind, msg: p.what },
+                }
+            }
+            fn shown(&self) -> Sexp {
+                self.sexp()
+            }
+        }
+    )*};
+}
+case_err_k!(crate::more::AppErrRkyv, crate::more::AppErrSerdeLite);
+
+fn with_err<E: CaseErr>(c: &Sexp) -> Sexp {
+    use server_fn::error::ServerFnErrorWrapper as W;
+    match c.at(0).num() {
+        // the string form of an error (Display of the wrapper), read back with FromStr
+        23 => {
+            let e = E::of_case(c.at(2), c.at(3));
+            let s = W(e).to_string();
+            let back = s.parse::<W<E>>().expect("FromStr of the wrapper never fails").0;
+            Lst(vec![Sexp::from_str(&s), back.shown()])
+        }
+        24 => text(c.at(2)).parse::<W<E>>().expect("FromStr of the wrapper never fails").0.shown(),
+        // the URL form for any error type; the base may be a relative reference
+        26 => {
+            let e = E::of_case(c.at(2), c.at(3));
+            let path = text(c.at(4));
+            let base = url_string(c.at(5), c.at(6), c.at(7));
+            let ue = ServerFnUrlError::new(&path, e);
+            let acc = Lst(vec![Sexp::from_str(ue.path()), ue.error().shown()]);
+            let url = match ue.to_url(&base) {
+                Ok(u) => u,
+                Err(err) => return Lst(vec![Num(-1), Sexp::from_str(&err.to_string()), acc]),
+            };
+            let s = url.as_str().to_string();
+            let parsed = url::Url::parse(&s).expect("to_url produced an unparsable URL");
+            let mut p_back = None;
+            let mut e_back = None;
+            for (k, v) in parsed.query_pairs() {
+                if k == "__path" {
+                    p_back = Some(v.to_string());
+                } else if k == "__err" {
+                    e_back = Some(v.to_string());
+                }
+            }
+            Lst(vec![
+                Sexp::from_str(&s),
+                opt(p_back.map(|p| Sexp::from_str(&p))),
+                opt(e_back.map(|v| ServerFnUrlError::<E>::decode_err(&v).shown())),
+                acc,
+            ])
+        }
+        _ => Lst(vec![]),
+    }
+}
+fn any_err(c: &Sexp) -> Sexp {
+    match c.at(1).num() {
+        0 => {
+            // `From<ServerFnError> for throw_error::Error` (what an ErrorBoundary shows)
+            if c.at(0).num() == 23 && c.at(4).num() == 1 {
+                let e: ServerFnError = err_from_case(c.at(2).num(), c.at(3));
+                let s = throw_error::Error::from(e).to_string();
+                let back = s
+                    .parse::<server_fn::error::ServerFnErrorWrapper<ServerFnError>>()
+                    .expect("FromStr of the wrapper never fails")
+                    .0;
+                return Lst(vec![Sexp::from_str(&s), err_to_sexp(&back)]);
+            }
+            // the two conversions out of a ServerFnUrlError
+            if c.at(0).num() == 26 && c.at(8).num() == 1 {
+                let e: ServerFnError<Code> = err_from_case(c.at(2).num(), c.at(3));
+                let ue = ServerFnUrlError::new(text(c.at(4)), e);
+                let back: ServerFnError<Code> = ue.into();
+                return Lst(vec![Num(-2), err_to_sexp(&back)]);
+            }
+            with_err::<ServerFnError>(c)
+        }
+        1 => with_err::<ServerFnError<Code>>(c),
+        2 => with_err::<crate::fns::AppErrJson>(c),
+        3 => with_err::<crate::fns::AppErrCbor>(c),
+        4 => with_err::<crate::fns::AppErrMsgPack>(c),
+        5 => with_err::<crate::fns::AppErrPostcard>(c),
+        6 => with_err::<crate::more::AppErrRkyv>(c),
+        _ => with_err::<crate::more::AppErrSerdeLite>(c),
+    }
+}
+/// (25 enc mode data): `FormatType::{into_encoded_string, from_encoded_string}` of every encoding
+fn format_type(c: &Sexp) -> Sexp {
+    use server_fn::{
+        codec::{CborEncoding, JsonEncoding, MsgPackEncoding, PostcardEncoding, RkyvEncoding, SerdeLiteEncoding},
+        error::ServerFnErrorEncoding,
+        FormatType,
+    };
+    fn go<F: FormatType>(c: &Sexp) -> Sexp {
+        if c.at(2).num() == 0 {
+            let w = F::into_encoded_string(Bytes::from(c.at(3).bytes()));
+            let back = F::from_encoded_string(&w);
+            Lst(vec![Sexp::from_str(&w), b64_result(back)])
+        } else {
+            b64_result(F::from_encoded_string(&text(c.at(3))))
+        }
+    }
+    match c.at(1).num() {
+        0 => go::<JsonEncoding>(c),
+        1 => go::<SerdeLiteEncoding>(c),
+        2 => go::<ServerFnErrorEncoding>(c),
+        3 => go::<CborEncoding>(c),
+        4 => go::<MsgPackEncoding>(c),
+        5 => go::<PostcardEncoding>(c),
+        _ => go::<RkyvEncoding>(c),
+    }
+}
+
 fn opt(o: Option<Sexp>) -> Sexp {
     Lst(o.into_iter().collect())
 }
@@ -179,6 +334,8 @@ pub fn run(c: &Sexp) -> Sexp {
             Lst(vec![Sexp::from_str(&w), b64_result(back)])
         }
         3 => b64_result(CborEncoding::from_encoded_string(&text(c.at(1)))),
+        23 | 24 | 26 => any_err(c),
+        25 => format_type(c),
         6 => {
             let mut s = url_string(c.at(1), c.at(2), c.at(3));
             ServerFnUrlError::<ServerFnError>::strip_error_info(&mut s);
